@@ -11,7 +11,7 @@
    a root with another accepted spelling the re-loaded tree equals the REWRITTEN tree (not covered). *)
 From AV Require Import Base.Bytes Base.Outcome Base.Utf8 Hash.HashModel Spec.SpecOps Spec.Versions
   Xml.Lexer Xml.Parser Xml.Serializer Xml.Funnel Xml.FunnelParser Xml.StrictValidDef Xml.StrictValid
-  Xml.RoundTripFile Xml.RoundTripCanon Xml.RoundTripCanonFinal.
+  Xml.RoundTripFile Xml.RoundTripCanon Xml.RoundTripCanonFinal Xml.RoundTripSetVersion.
 Open Scope list_scope.
 Open Scope N_scope.
 
@@ -63,6 +63,27 @@ Proof.
     as (bs' & SF & st' & L' & W' & V' & _ & SF').
   exists bs'. split; [exact SF|]. exists st'. split; [exact L'|]. split; [exact W'|]. split; [exact V'|]. split; [|exact SF'].
   exact (load_strict_valid T tab_el tab_at tab_en check_fn float_parse bs' t st' L').
+Qed.
+
+(* the same without a premise on the root's xsi:schemaLocation spelling: t' is the tree after ArxmlFile::serialize rewrote
+   that attribute (Serializer.set_version; t' = t for the canonical spelling) *)
+Theorem no_holes_rewritten (b : bool) bs t st t' :
+  load b T tab_el tab_at tab_en check_fn float_parse bs = Val (Ret t st) -> p_warnings st = [] ->
+  canon_hyps T tab_el tab_at tab_en float_fmt float_parse -> knownb T t = false ->
+  Serializer.set_version T tab_at check_fn (p_version st) t = Val t' ->
+  forall sa, exists bs',
+    serialize_file T tab_el tab_at tab_en check_fn float_fmt (p_version st) sa t = Val bs' /\
+    exists st', load true T tab_el tab_at tab_en check_fn float_parse bs' = Val (Ret t' st') /\
+      p_warnings st' = [] /\ p_version st' = p_version st /\ AcceptedValid (p_version st') t' /\
+      serialize_file T tab_el tab_at tab_en check_fn float_fmt (p_version st') sa t' = Val bs'.
+Proof.
+  intros L W HYP KN SV sa.
+  assert (LS : load true T tab_el tab_at tab_en check_fn float_parse bs = Val (Ret t st)).
+  { destruct b; [exact L|]. destruct (load_agree T tab_el tab_at tab_en check_fn float_parse bs) as (A & _). exact (A t st L W). }
+  destruct (reload_rewritten T tab_el tab_at tab_en check_fn float_fmt float_parse HYP true bs t st t' LS W KN SV sa)
+    as (bs' & SF & st' & L' & W' & V' & _ & SF').
+  exists bs'. split; [exact SF|]. exists st'. split; [exact L'|]. split; [exact W'|]. split; [exact V'|]. split; [|exact SF'].
+  exact (load_strict_valid T tab_el tab_at tab_en check_fn float_parse bs' t' st' L').
 Qed.
 
 End NoHoles.
